@@ -516,6 +516,9 @@ def c15(a):
               "HH:MM:SS x precision, comma, padding, zero unit) plus seeded option mixes: the text must be accepted by the "
               "parser; lossless configurations must return the identical value (after folding the units below the fractional "
               "unit), lossy ones a value closer than one unit of the last printed digit (digits counted in the text).")
+    c.rule += (" fr_parse: texts drawn from the documented grammar (every label spelling, blank and comma variants, "
+               "fractions with '.' or ',', clocks, sign or 'ago') are read by Friendly.tla and by jiff's parser, which must "
+               "return the units the text states (a fraction truncated toward zero), and refuse calendar units for a SignedDuration.")
     c.rule += (" Every friendly text is also read by Friendly.tla, an independent reader written from the grammar in the "
                "documentation: the text itself must denote the value (calendar units exactly, the time units exactly or as a "
                "total, truncated toward zero by less than one unit of the last digit under a limited precision).")
